@@ -88,4 +88,64 @@ def api_set_vlan_id (v ch : Nat) : Exchange :=
   | .ok d => api_set_lan_config_param ch lanVlan d
   | e => .raise (reraise e)
 
+/-! ### ip_address_to_data on the TEXT of the argument: `ByteBuffer(map(int, ip_address.split('.')))` -/
+
+/-- the ASCII characters `int()` / `str.strip()` skip at either end of a numeral -/
+def isPyBlank (c : Char) : Bool :=
+  c == ' ' || (9 ≤ c.toNat && c.toNat ≤ 13) || (28 ≤ c.toNat && c.toNat ≤ 31)
+
+def dropBlanks : List Char → List Char
+  | [] => []
+  | c :: cs => if isPyBlank c then dropBlanks cs else c :: cs
+
+/-- `str.strip()` -/
+def pyStrip (cs : List Char) : List Char := (dropBlanks (dropBlanks cs).reverse).reverse
+
+/-- `text.split('.')` -/
+def splitDots : List Char → List (List Char)
+  | [] => [[]]
+  | c :: cs =>
+    if c = '.' then [] :: splitDots cs
+    else match splitDots cs with
+      | w :: ws => (c :: w) :: ws
+      | [] => [[c]]
+
+/-- one item of `ByteBuffer(map(int, …))`: `int(text)` - blanks at either end dropped, an optional sign, then DECIMAL
+digits only: leading zeros are digits like any other, the base is ten whatever the numeral begins with - and the
+range check of `array('B')` for a negative number (values above 255 are refused by `api_set_ip_address`).
+Underscores between digits and non-ASCII digits, which CPython's `int()` accepts too, are not modelled (ValueError). -/
+def octetOfText (cs : List Char) : Outcome Nat :=
+  let digits (ds : List Char) (neg : Bool) : Outcome Nat :=
+    if ds.isEmpty || !ds.all Char.isDigit then .pyError "ValueError"
+    else if neg && Nat.ofDigitChars 10 ds 0 ≠ 0 then .pyError "OverflowError"
+    else .ok (Nat.ofDigitChars 10 ds 0)
+  match pyStrip cs with
+  | '+' :: ds => digits ds false
+  | '-' :: ds => digits ds true
+  | ds => digits ds false
+
+def octetsOfTexts : List (List Char) → Outcome (List Nat)
+  | [] => .ok []
+  | w :: ws => (octetOfText w).bind fun n => (octetsOfTexts ws).bind fun ns => .ok (n :: ns)
+
+/-- ip_address_to_data(text): the integers between the dots, each read as a decimal numeral -/
+def ipAddressToData (text : List Char) : Outcome (List Nat) := octetsOfTexts (splitDots text)
+
+/-- set_ip_address(text, channel) -/
+def api_set_ip_address_text (text : List Char) (ch : Nat) : Exchange :=
+  match ipAddressToData text with
+  | .ok ip => api_set_ip_address ip ch
+  | e => .raise (reraise e)
+
+/-- a decimal numeral of `n` with `k` zeros in front ('010', '001', '08', '0255') -/
+def numeral (k n : Nat) : List Char := List.replicate k '0' ++ Nat.toDigits 10 n
+
+def joinDots : List (List Char) → List Char
+  | [] => []
+  | [w] => w
+  | w :: ws => w ++ '.' :: joinDots ws
+
+/-- the dotted spelling of `ip` whose i-th octet carries `pads[i]` leading zeros -/
+def dotted (pads ip : List Nat) : List Char := joinDots (List.zipWith numeral pads ip)
+
 end PyIpmi.Model.Api
